@@ -37,7 +37,7 @@ func raceSig(r simrt.RaceReport) string {
 
 func init() {
 	Register(&Check{ID: "C12", Level: "exploration",
-		Rule: "one case = one generated workflow (emphasis on fan-out of one out-port to several consumers incl. tagging components, fan-in with concurrent port closing, multi-core tasks, parameter feeders, RunTo; also streaming pairs, lazily loaded records, 2-3 taggers in a row, one or two failing commands) run under one tape-chosen schedule on the race-instrumented build; the in-simulator happens-before checker (vector clocks, edges only from go / channel send-receive / close / mutex / WaitGroup as in the Go memory model) reports every pair of conflicting accesses to a tracked location (maps, struct fields reached through pointers, object graphs handed to encoding/json) that is unordered in that execution. Round 5: bundled components (C19 shapes), a second workflow created and run concurrently, nested workflows. Round 6: indexed slice elements are tracked; two Concatenator branches side by side. distinct = event-log hash; non-trivial = >=2 tasks and >=1 non-default choice",
+		Rule: "one case = one generated workflow (emphasis on fan-out of one out-port to several consumers incl. tagging components, fan-in with concurrent port closing, multi-core tasks, parameter feeders, RunTo; also streaming pairs, lazily loaded records, 2-3 taggers in a row, one or two failing commands) run under one tape-chosen schedule on the race-instrumented build; the in-simulator happens-before checker (vector clocks, edges only from go / channel send-receive / close / mutex / WaitGroup as in the Go memory model) reports every pair of conflicting accesses to a tracked location (maps, struct fields reached through pointers, object graphs handed to encoding/json) that is unordered in that execution. Round 5: bundled components (C19 shapes), a second workflow created and run concurrently, nested workflows. Round 6: indexed slice elements are tracked; two Concatenator branches side by side. Round 7: one file through two FileSources. distinct = event-log hash; non-trivial = >=2 tasks and >=1 non-default choice",
 		Run: func(c *Case) Verdict {
 			var w *WF
 			if c.Tape.Choose(simrt.StGen, 14, 0) == 1 {
